@@ -129,6 +129,9 @@ def expanded_source():
     try:
         subprocess.run(['rsync', '-a', '--exclude', 'target', '--exclude', '.git', '--exclude', 'files',
                         REPO.rstrip('/') + '/', tmp + '/'], check=True)
+        # rsync -a keeps mtimes and the target dir is shared: refresh them, or cargo may reuse a proc-macro /
+        # crate built from ANOTHER tree (e.g. a mutant of pdf_derive) as "fresh"
+        subprocess.run(['find', tmp, '-name', '*.rs', '-exec', 'touch', '{}', '+'], check=False)
         env = dict(os.environ, RUSTC_BOOTSTRAP='1', CARGO_TARGET_DIR=os.path.join(cache_root, 'expand-target'),
                    CARGO_NET_OFFLINE='true')
         p = subprocess.run(['cargo', 'rustc', '--offline', '--lib', '-p', 'pdf', '--', '-Zunpretty=expanded'],
@@ -444,6 +447,10 @@ def render_devs(unit, devs):
     for name in unit.get('deviations', {}):
         on = devs is not None and name in devs
         out.append('pub open spec fn %s() -> bool { %s }' % (name, 'true' if on else 'false'))
+    # tolerances: behaviour the property does not constrain (e.g. what happens on NON-conformant input);
+    # always on, never a finding — the spec simply leaves that case open
+    for name in unit.get('tolerances', {}):
+        out.append('pub open spec fn %s() -> bool { true }' % name)
     return '\n'.join(out) + '\n'
 
 
